@@ -202,6 +202,7 @@ def run(ctx):
     nullable_array_bounds(ctx)
     scopes_do_not_contain_themselves(ctx)
     scope_struct_type_is_nullable(ctx)
+    typedefs_peeled_before_taking_apart(ctx)
     containment_recursion(ctx)
     construction_stacks(ctx)
     lexer_restore_order(ctx)
@@ -1486,3 +1487,46 @@ def scope_struct_type_is_nullable(ctx):
             ok = G.gated(f, x, G.edges_where(f, nonnull))
             ctx.ob("R15.21", inst, ok, f.loc(x), "`%s` is %sbehind a test that %s is not null" % (show(x)[:60], "" if ok else "NOT ", key))
     ctx.floor("R15.21", "dereferences of a get_struct_type() result", n, 3)
+
+
+def typedefs_peeled_before_taking_apart(ctx):
+    """R15.22: TypeManager::is_pointer_to_simple() answers through typedef layers.  The generator branch it selects then
+    takes the type apart with as_array_type()/as_pointer_type() and finally dereferences as_simple_type(); if it has not
+    peeled the typedefs first, a typedef-named array (`typedef int I3[3]; extern I3 arr;`) matches neither, the simple type
+    is null and the generator dies.  (F-C15r, valid C++.)"""
+    db = ctx.db
+    ctx.rule("R15.22", "in write_function_instance, the local taken from unwrap_const_reference() is asked as_array_type()/as_pointer_type() only after a loop that replaces it by ->_type while it is a typedef")
+    f = db.fn("InterfaceMakerPythonNative::write_function_instance")
+    n = 0
+    for y in f.walk():
+        if y.get("k") != "decls":
+            continue
+        for d in y["d"]:
+            init = strip_casts(peel(d.get("init"))) if d.get("init") is not None else None
+            if init is None or init.get("k") != "call" or callee_short(init) != "unwrap_const_reference":
+                continue
+            v = d["d"]
+            asks = [c for c in f.walk() if c.get("k") == "call" and callee_short(c) in ("as_array_type", "as_pointer_type") and (local_ref(c.get("this")) or {}).get("d") == v]
+            if not asks:
+                continue
+            peels = []
+            for lp in f.walk():
+                if lp.get("k") not in ("while", "for"):
+                    continue
+                cond_ok = any(z.get("k") == "ref" and (z.get("n") or "").endswith("ST_typedef") for z in walk(lp.get("c") or {})) \
+                    and any(z.get("k") == "call" and callee_short(z) == "get_subtype" and (local_ref(z.get("this")) or {}).get("d") == v for z in walk(lp.get("c") or {}))
+                body_ok = any(assigned_target(z) and (local_ref(assigned_target(z)[0]) or {}).get("d") == v for z in walk(lp.get("body") or {}))
+                if cond_ok and body_ok:
+                    for z in walk(lp.get("c") or {}):
+                        loc = f.cfg.locate(z)
+                        if loc:
+                            peels.append(loc[0])
+                            break
+            dom = f.cfg.dominators()
+            for c in asks:
+                n += 1
+                lc = f.cfg.locate(c)
+                ok = lc is not None and any(pb in dom.get(lc[0], ()) for pb in peels)
+                ctx.ob("R15.22", "write_function_instance|%s.%s()|after-typedef-peel" % (d["n"], callee_short(c)), ok, f.loc(c),
+                       "`%s` is %sasked after the typedef layers were peeled" % (show(c), "" if ok else "NOT "))
+    ctx.floor("R15.22", "array/pointer questions to an unwrapped parameter type", n, 2)
